@@ -105,7 +105,7 @@ func genPlan(t *rapid.T, tier string) any {
 		}
 		l := Line{Cmd: rapid.SampledFrom(mix).Draw(t, "cmd")}
 		for g, ng := 0, rapid.SampledFrom([]int{0, 0, 0, 1, 1, 2}).Draw(t, "nguards"); g < ng; g++ {
-			l.Guards = append(l.Guards, Guard{Cond: rapid.SampledFrom([]string{"ctrue", "cfalse", "linux", "windows", "cflip", "cflip"}).Draw(t, "cond"), Neg: rapid.Bool().Draw(t, "gneg")})
+			l.Guards = append(l.Guards, Guard{Cond: rapid.SampledFrom([]string{"ctrue", "cfalse", "linux", "windows", "cflip", "cflip", "ctrue", "cfalse", "cbroken"}).Draw(t, "cond"), Neg: rapid.Bool().Draw(t, "gneg")})
 		}
 		l.Neg = rapid.IntRange(0, 3).Draw(t, "neg") == 0
 		l.Out = rapid.IntRange(0, len(outs)-1).Draw(t, "out")
@@ -162,6 +162,7 @@ type evaluator struct {
 	bgs                   []*bgProc
 	files                 map[string]bool
 	stopped, skipped      bool
+	brokenGuard           bool // the last guardsHold met a condition whose evaluation failed
 }
 
 func withNL(s string) string {
@@ -235,7 +236,14 @@ func (e *evaluator) unsupported(l Line, cont, failedBefore bool) string {
 // guardsHold evaluates the guards left to right, stopping at the first that does not hold
 // (a guard is judged when its line is reached: cflip is true on every other evaluation).
 func (e *evaluator) guardsHold(l Line) bool {
+	e.brokenGuard = false
 	for _, g := range l.Guards {
+		if g.Cond == "cbroken" {
+			// the user's Condition callback reports an error: the guard can be judged neither way
+			// and the line is the offending one, whatever its negation
+			e.brokenGuard = true
+			return false
+		}
 		truth := g.Cond == "ctrue" || g.Cond == "linux"
 		if g.Cond == "cflip" {
 			e.flips++
@@ -523,6 +531,8 @@ func render(p *Plan, factor []int) (string, verdict, int) {
 		ok := true
 		if e.guardsHold(l) {
 			ok = e.step(l, &v.probes)
+		} else if e.brokenGuard {
+			ok = false
 		}
 		if !ok {
 			if v.failLine == 0 {
@@ -603,6 +613,8 @@ func run(t *testing.T, plan any, keep bool) *simcheck.Outcome {
 					case "cflip":
 						flips++
 						return flips%2 == 1, nil
+					case "cbroken":
+						return false, fmt.Errorf("condition callback failed")
 					}
 					return false, fmt.Errorf("unknown condition %q", cond)
 				},
@@ -714,7 +726,7 @@ func numbered(text string) string {
 var harness = &simcheck.Harness{
 	Property: "C01",
 	Level:    "exploration",
-	Rule: "rapid draws a script of up to 12 lines over the engine's command subset ([cond]/[!cond] guards with a custom Condition and OS conditions, !, a stateful custom condition, exec foreground / background / named with seeded exit code, output and run time, exec of a file that cannot be started, a 70 KB line, " +
+	Rule: "rapid draws a script of up to 12 lines over the engine's command subset ([cond]/[!cond] guards with a custom Condition and OS conditions, !, a stateful custom condition, a custom condition whose evaluation reports an error (the line is then the offending one), exec foreground / background / named with seeded exit code, output and run time, exec of a file that cannot be started, a 70 KB line, " +
 		"wait [name], kill -INT, stdout / stderr with literal patterns and -count, cmp stdout|stderr file, stdin, exists, one- and two-argument exists, stop, skip, an unknown command, probe / snap (exact stdout and stderr as the script sees them) / failing custom commands, phase comments) and ContinueOnError; " +
 		"lines whose meaning would depend on timing or is undocumented in the current state are dropped at rendering; each script runs under 2 (quick) / 3 (thorough) latency assignments with different schedule seeds; " +
 		"non-trivial = the expected verdict is not a plain pass or some probe ran; distinct by the hash of script and decision trace",
@@ -729,6 +741,7 @@ var harness = &simcheck.Harness{
 	},
 	Assumptions: []string{
 		"scope: the engine around commands. The file-manipulating built-ins (cd chmod cmpenv cp grep mkdir mv rm symlink unquote unix2dos, cmp on files), regular-expression semantics, RequireExplicitExec / Main registration, RequireUniqueNames and the standalone cmd/testscript binary's exit status are input->output semantics without schedule, clock or fault and are not decided here",
+		"a guard whose Condition callback returns an error holds neither way: the line counts as the first offending one (the run must not be reported as passed on the strength of a guard nobody could evaluate)",
 		"skip/stop with background processes still running, kill of a process that may have exited, and a failing wait under ContinueOnError are not generated (timing dependent or undocumented)",
 	},
 	RequiredCounters: []string{"runs", "proc_starts", "expected_fail", "expected_skip"},
